@@ -264,6 +264,7 @@ struct Hll {
   uint8_t cur_min = 0;
   std::vector<uint8_t> regs;              // HLL: true register values (curMin / aux resolved)
   uint32_t aux_tokens = 0;                // HLL_4: number of nibbles == 15
+  bool set_probe_checked = false;         // updatable SET: probe-sequence reachability verified
 };
 
 inline uint8_t hll_lg_aux_arr_ints(uint8_t lg_k) {
@@ -310,8 +311,24 @@ inline Hll decode_hll(const void* bytes, size_t size, bool expect_compact) {
       for (uint32_t i = 0; i < count; ++i) { uint32_t cp = c.u32("coupon"); c.expect(cp != 0, "set-compact-empty-coupon"); h.coupons.push_back(cp); }
     } else {
       const uint32_t slots = 1u << h.lg_arr;
-      for (uint32_t i = 0; i < slots; ++i) { uint32_t cp = c.u32("coupon slot"); if (cp != 0) h.coupons.push_back(cp); }
+      std::vector<uint32_t> table(slots);
+      for (uint32_t i = 0; i < slots; ++i) { table[i] = c.u32("coupon slot"); if (table[i] != 0) h.coupons.push_back(table[i]); }
       c.expect(h.coupons.size() == count, "set-count-vs-nonzero-slots", std::to_string(count) + " vs " + std::to_string(h.coupons.size()));
+      // the updatable table is an open-addressing hash set that other implementations keep updating in place: every coupon
+      // must be reachable by the published probe sequence  start = coupon & (slots-1),
+      // stride = ((coupon & 0x3ffffff) >> lgArr) | 1  without crossing an empty slot
+      const uint32_t mask = slots - 1;
+      for (uint32_t cp : h.coupons) {
+        uint32_t probe = cp & mask; const uint32_t stride = ((cp & 0x3ffffff) >> h.lg_arr) | 1;
+        bool found = false;
+        for (uint32_t step = 0; step < slots; ++step) {
+          if (table[probe] == cp) { found = true; break; }
+          if (table[probe] == 0) break;
+          probe = (probe + stride) & mask;
+        }
+        c.expect(found, "set-updatable-coupon-not-on-its-probe-sequence", "coupon " + std::to_string(cp) + " lg_arr=" + std::to_string(h.lg_arr));
+      }
+      h.set_probe_checked = true;
     }
     c.expect_end();
     return h;
